@@ -15,9 +15,19 @@ if not w:
     print('no concrete input recorded (no-failing-input-found); re-run the check to re-derive the obligation')
     sys.exit(0)
 rc = 0
+repo = os.environ.get('VERIF_REPO', '/repo')
 for t in w.get('tests', []):
-    print('--- scenario', t['scenario'], 'test', t['test'])
-    p = subprocess.run(['bash', os.path.join(ROOT, 'tool', 'demo.sh'), os.path.join(ROOT, t['scenario'])], capture_output=True, text=True)
-    print(p.stdout[-3000:])
-    rc = rc or (1 if p.returncode != 0 else 0)
+    print('--- scenario', t.get('scenario'), 'test', t.get('test'))
+    if not t.get('scenario'):
+        continue
+    # rundemo.sh: scratch overlay of the tree, the scenario wired in (also inside an inline module), time-out, own process group
+    p = subprocess.run(['bash', os.path.join(ROOT, 'tool', 'rundemo.sh'), os.path.join(ROOT, t['scenario']), repo], capture_output=True, text=True,
+                       env=dict(os.environ, TMO=os.environ.get('TMO', '600'), LINES_='80'))
+    print(p.stdout[-4000:])
+    if 'test result: FAILED' in p.stdout or 'TIMEOUT' in p.stdout or '\nerror' in ('\n' + p.stdout):
+        rc = 1
+    elif 'test result: ok' not in p.stdout:
+        rc = rc or 2
+if not w.get('tests') and w.get('cmd'):
+    print('replay with:', w['cmd'])
 sys.exit(rc)
